@@ -323,6 +323,12 @@ def check_expansion(text, vec_seed, res, n_random=200, max_corner=400):
             R.bump(res, "expansion_generated:" + kind + (":documented-types" if all(t.startswith("i") for t in types) and G.in_documented_domain(kind, types) else ":other-types"))
     after = apply(before, "convert-kernel-to-linalg", res)
     if after is None:
+        for g in gb:
+            kind, types, _ = kernel_kind_types(body_of(g))
+            if kind:
+                dom = all(t.startswith("i") for t in types) and G.in_documented_domain(kind, types)
+                R.bump(res, "expansion_rejected_by_compiler:" + ("documented-types" if dom else "other-types"))
+                R.seen(res, "expansion_rejected_type_combinations", f"{kind}:{','.join(types)}", cap=60)
         return out
     ga = generics(after)
     case = {"monitor": "expansion", "text": text, "vec_seed": vec_seed, "n_random": n_random, "max_corner": max_corner}
